@@ -116,8 +116,18 @@ def gen_arrays(rng, count):
             lines.append("da %d : %s" % (cap, " ; ".join(ops)))
     return lines
 
+def marathon_tasklist(cap, cycles):
+    """fill the list, then free one slot and refill it `cycles` times: the list becomes full again and again (the
+    free-list frontier must stay pinned; a drifting uint8_t counter would need > 250 fill-ups to wrap)"""
+    ops = ["emp %d %d" % (i % 8, (i + 1) % 8) for i in range(cap)]
+    for k in range(cycles):
+        i = (k * 7 + 3) % cap
+        ops += ["rem %d" % i, "emp %d %d" % (k % 8, (k + 3) % 8)]
+        if k % 50 == 49: ops.append("emp 1 1")          # full: must be refused
+    return "tl %d : %s" % (cap, " ; ".join(ops))
+
 def gen_tasklist(rng, count, caps=None):
-    lines = []
+    lines = [marathon_tasklist(cap, 300) for cap in (2, 3, 5)] if caps is None else []
     for _ in range(count):
         cap = rng.choice(caps or [1, 2, 3, 4, 5, 8, 255]); ops = []; occ = set(); model_free = None
         # the generator only needs to know which slots are occupied: emplace reports the slot it used,
